@@ -422,12 +422,48 @@ def check(run: lib.Run, audit: dict) -> int:
                        "the recording checker answers from a table keyed by the triple (deterministic within a decision)"]
     if not audit["ok"]:
         raise lib.CheckError(f"Lean build/audit failed at {audit['stage']}: {audit.get('log') or audit.get('forbidden') or audit.get('bad_axioms')}")
-    run_cases(run, audit, scale=run.boost)
+    # the `rel` branch of eval_condition and the two canonicalisers as they are written NOW, translated into Lean (state-and-exception-
+    # passing), are proved to do what the model's relQuery / evalRel / evalRelM say (per-run obligation); the translation itself is
+    # compared with CPython
+    trr = audit["facts"].get("translated_rel")
+    rel = trr.get("rel") if isinstance(trr, dict) else None
+    rel_failed = (trr or {}).get("extraction_failed") if isinstance(trr, dict) else None
+    if isinstance(rel, dict) and "extraction_failed" in rel:
+        rel_failed = rel["extraction_failed"]
+    ok_tr, detail_tr = lib.run_obligation("C13_translated", deps=["C04_translated"])
+    run.obligation("C13_translated: Generated.Src.rel_range / canon_subject / canon_resource (the current source text of the `rel` branch of "
+                   "eval_condition and of _canon_subject / _canon_resource; ContextVars as parameters: checker outcome function, memo state, "
+                   "event loop; externals getattr, _ctx_hash, resolve_awaitable_in_worker) = the model's relQuery / evalRel / evalRelM: the same "
+                   "canonical triple and merged context handed to the checker, fail closed without a checker and on a raise, memo probed before the "
+                   "call and stored after it, for every well-formed env, rel expression, checker outcome function and memo state", ok_tr,
+                   "discharged" if ok_tr else (str(rel_failed) if rel_failed else detail_tr))
+    if rel_failed or not isinstance(rel, dict):
+        ok_py, detail_py = True, "skipped: the rel branch is not in the translatable subset (see C13_translated)"
+    else:
+        ok_py, detail_py = translated_vs_python(run)
+    run.obligation("translated rel branch / canonicalisers evaluate like the real eval_condition({'rel': …}) / _canon_*: result or exception, "
+                   "checker calls, final memo (harness/pytolean_rel.py + Model/PyRel.lean vs CPython)", ok_py, detail_py)
+    tr_dis = [d for d in run.disagreements if d.get("part") == "translated source vs python"]
+    run.disagreements = [d for d in run.disagreements if d.get("part") != "translated source vs python"]
+    run_cases(run, audit, scale=run.boost * (1 if ok_tr else 2))
     check_isolation(run)
     check_nested(run)
     violations = []
     if run.disagreements and not run.spec_failures:
         run_cases(run, audit, scale=3)
+    if not run.spec_failures and not run.disagreements and not ok_tr:
+        path = run.write_replay("obligation", {"what": "per-run obligation Rbacx/Run/C13_translated.lean no longer checks: the translated source of the `rel` "
+                                               "branch of eval_condition / _canon_subject / _canon_resource is not proved to do what the model's relQuery / "
+                                               "evalRel / evalRelM say (canonical triple, fail closed, memo lookup before and store after the call), the "
+                                               "functions theorems Rbacx.C13.* are about; the widened search found no request whose decision or checker-call "
+                                               "sequence differs from the model's",
+                                               "translation": rel_failed, "lean": detail_tr[-1500:], "first_disagreement": tr_dis[:1]})
+        violations.append((path, False))
+    elif not run.spec_failures and not run.disagreements and (tr_dis or not ok_py):
+        first = tr_dis[0] if tr_dis else {"part": "translated source vs python", "what": detail_py}
+        path = run.write_replay("correspondence", {"what": "translated source vs python: " + str(first.get("what")) + "; the obligation C13_translated rests on "
+                                                   "a translation that CPython contradicts (or that could not be evaluated)", "first": first, "count": len(tr_dis)})
+        violations.append((path, False))
     if run.spec_failures:
         path = run.write_replay("spec", {"what": "C13 violated on the real engine", "case": run.spec_failures[0], "count": len(run.spec_failures)})
         violations.append((path, True))
